@@ -70,9 +70,18 @@ pub fn c11_k_operation_table() {
     let spec = spec_cmd(b);
     match Operation::try_from(b) {
         Ok(op) => {
-            assert!(spec != SpecCmd::Unassigned, "C11: unassigned byte recognised");
-            assert!(matches(op, spec), "C11: byte decodes to the wrong operation");
-            assert!(u8::from(op) == b, "C11: operation does not convert back to its byte");
+            assert!(
+                spec != SpecCmd::Unassigned,
+                "C11: unassigned byte recognised"
+            );
+            assert!(
+                matches(op, spec),
+                "C11: byte decodes to the wrong operation"
+            );
+            assert!(
+                u8::from(op) == b,
+                "C11: operation does not convert back to its byte"
+            );
             assert!(op.into_u8() == b, "C11: into_u8 disagrees");
         }
         Err(()) => assert!(spec == SpecCmd::Unassigned, "C11: assigned byte rejected"),
